@@ -181,9 +181,11 @@ Section Steps.
     Forall2 (moves (b2n (String.eqb "PrefixTransformer" k)) (b2n (String.eqb "SuffixTransformer" k))
                    (pd_prefix d) (pd_suffix d)) m m'.
   Proof.
-    intros ([Hrp Him] & _ & Hn & _ & _ & _ & Hp & Hs) Hns HW. unfold run_kind. rewrite Hns, Hrp, Him.
+    intros ([Hrp Him] & _ & Hn & _ & _ & _ & Hp & Hs) Hns HW. unfold run_kind. rewrite Hns, Hrp, Him, (proj2 Hn).
     assert (Z : forall m0, Forall2 (moves 0 0 (pd_prefix d) (pd_suffix d)) m0 m0).
     { intros m0. apply Forall2_refl_on. intros r. apply same_identity_moves, same_identity_refl. }
+    destruct (String.eqb_spec k "PatchTransformer") as [->|N0].
+    { cbn. intros H; inv H. split; [assumption|apply Z]. }
     destruct (String.eqb_spec k "NamespaceTransformer") as [->|N1].
     { cbn. intros H; inv H. split; [assumption|apply Z]. }
     destruct (String.eqb_spec k "PrefixTransformer") as [->|N2].
